@@ -21,6 +21,9 @@ type C11Case struct {
 	// LateChoices: the choices are assigned to Option.Choices (a public field)
 	// after the parser was built instead of being declared by tags
 	LateChoices bool `json:"late_choices,omitempty"`
+	// More: earlier values of a multi-valued option (repeated occurrences, several
+	// default tags, or an env list split on ","); Value is the last one
+	More []string `json:"more,omitempty"`
 }
 
 var _ = Register("C11", func() interface{} { return new(C11Case) }, func(c interface{}) string { return c11Oracle(c.(*C11Case)) })
@@ -179,6 +182,25 @@ func genC11(t *rapid.T) *C11Case {
 			c.Value = c.Choices[0] + "x"
 		}
 	}
+	if k.IsMulti() && rapid.IntRange(0, 9).Draw(t, "list") < 4 {
+		n := rapid.IntRange(1, 20).Draw(t, "listLen")
+		badAt := -1
+		if rapid.IntRange(0, 4).Draw(t, "listBad") == 0 {
+			badAt = rapid.IntRange(0, n-1).Draw(t, "listBadAt")
+		}
+		for i := 0; i < n; i++ {
+			tx := ""
+			switch {
+			case i == badAt:
+				tx = genInvalidText(t, k, c.Base)
+			case len(c.Choices) > 0:
+				tx = rapid.SampledFrom(c.Choices).Draw(t, "listChoice")
+			default:
+				tx = genValidText(t, k, c.Base)
+			}
+			c.More = append(c.More, tx)
+		}
+	}
 	c.LateChoices = len(c.Choices) > 0 && rapid.IntRange(0, 3).Draw(t, "lateChoices") == 0
 	c.Via = []string{"arg", "default", "env"}[weighted(t, "via", []int{6, 2, 2})]
 	if k.IsFunc() || (k == KTri && c.Via == "default") {
@@ -186,6 +208,14 @@ func genC11(t *rapid.T) *C11Case {
 	}
 	if c.Via == "env" {
 		c.Value = envSafe(c.Value)
+		for i := range c.More {
+			c.More[i] = envSafe(c.More[i])
+		}
+		for _, tx := range append(append([]string{}, c.More...), c.Value) {
+			if len(c.More) > 0 && strings.Contains(tx, ",") {
+				c.Via = "arg" // the list separator may not occur inside a value
+			}
+		}
 	}
 	return c
 }
@@ -194,9 +224,12 @@ func c11Decl(c *C11Case) *Decl {
 	o := Opt{ID: "o1", Field: "Opt", Kind: c.Kind, Short: "o", Long: "opt", Base: c.Base, Choices: c.Choices, Unquote: "false"}
 	switch c.Via {
 	case "default":
-		o.Defaults = []string{c.Value}
+		o.Defaults = append(append([]string{}, c.More...), c.Value)
 	case "env":
 		o.Env = "VPC11_OPT"
+		if len(c.More) > 0 {
+			o.EnvDelim = ","
+		}
 	}
 	d := &Decl{Root: Cmd{ID: "root", Name: "app"}}
 	d.Root.G.Groups = []Group{{Field: "G0", Desc: "Application Options", Options: []Opt{o}}}
@@ -208,11 +241,14 @@ func c11Oracle(c *C11Case) string {
 	d := c11Decl(c)
 	var args []string
 	var env map[string]string
+	texts := append(append([]string{}, c.More...), c.Value)
 	switch c.Via {
 	case "arg":
-		args = []string{"--opt=" + c.Value}
+		for _, tx := range texts {
+			args = append(args, "--opt="+tx)
+		}
 	case "env":
-		env = map[string]string{"VPC11_OPT": c.Value}
+		env = map[string]string{"VPC11_OPT": strings.Join(texts, ",")}
 	}
 	var rr *RealResult
 	if c.LateChoices && len(c.Choices) > 0 {
@@ -237,15 +273,37 @@ func c11Oracle(c *C11Case) string {
 	if rr.Panic != "" {
 		return fmt.Sprintf("panic converting %q to %s: %s", c.Value, c.Kind, rr.Panic)
 	}
-	// reference verdict
-	member := len(c.Choices) == 0
-	for _, ch := range c.Choices {
-		if ch == c.Value {
-			member = true
+	// reference verdict: the first text of the list that is not acceptable decides
+	// (for a single value the list has one element)
+	var elems []interface{}
+	member := true
+	var elem interface{}
+	ver := Accept
+	for _, tx := range texts {
+		m := len(c.Choices) == 0
+		for _, ch := range c.Choices {
+			if ch == tx {
+				m = true
+			}
 		}
+		if !m {
+			member = false
+			break
+		}
+		e, v := RefOne(c.Kind, c.Base, tx)
+		elem, ver = e, v
+		if v != Accept {
+			break
+		}
+		elems = append(elems, e)
 	}
-	elem, ver := RefOne(c.Kind, c.Base, c.Value)
+	if len(c.More) > 0 {
+		st.Label(fmt.Sprintf("list of %d values", min(len(texts), 21)/7*7))
+	}
 	what := fmt.Sprintf("%s base=%d choices=%q value=%q via=%s", c.Kind, c.Base, c.Choices, c.Value, c.Via)
+	if len(c.More) > 0 {
+		what = fmt.Sprintf("%s base=%d choices=%q values=%q via=%s", c.Kind, c.Base, c.Choices, texts, c.Via)
+	}
 	st.Label("via " + c.Via)
 	// non-trivial classification
 	nt := len(c.Choices) > 0 || strings.ContainsAny(c.Value, "+-_ eExXpP.") || strings.HasPrefix(c.Value, "0") || c.Value == ""
@@ -316,7 +374,7 @@ func c11Oracle(c *C11Case) string {
 		}
 		return ""
 	}
-	want := Assemble(c.Kind, []interface{}{elem})
+	want := Assemble(c.Kind, elems)
 	got := rr.B.OptVal["o1"].Interface()
 	if !ValEqual(got, want) {
 		return fmt.Sprintf("%s: stored %s, denoted value is %s", what, ShowVal(got), ShowVal(want))
